@@ -191,7 +191,7 @@ def load_baseline():
 
 GROSS = 0.5           # an error of half the peak is outside every envelope, whatever the pinned tree does
 REFINE = 1.25         # slack for the max over a discrete region moving with the sampling
-REFINE_FLOOR = 2e-6   # rounding noise of the ill-conditioned solves (daun degree 3 reaches 1.6e-6 at n = 301)
+REFINE_FLOOR = 1e-8   # plain rounding; every method but daun degree 3 (finding F17) is stable at this level on the pinned tree
 
 
 def _parse(key):
@@ -227,15 +227,15 @@ def compare(ck, measured, baseline, prop):
         if val > GROSS:
             ck.violation(dict(site=site, clause="gross-error", zone=tags.get("zone", "all"), direction=d), rep,
                          f"{key}: error {val:.3g} of the peak — not a reconstruction of the distribution")
-        groups.setdefault(key.replace(f"|n={tags['n']}", ""), {})[int(tags["n"])] = (val, tags.get("zone", "all"), site)
+        groups.setdefault(key.replace(f"|n={tags['n']}", ""), {})[int(tags["n"])] = (val, tags.get("zone", "all"), site, meth)
     # refinement: the same physical distribution sampled more finely
     for g, byn in groups.items():
         ns = sorted(byn)
         for a, b in zip(ns, ns[1:]):
             ck.count(("refine", g, a, b), suite="S.refinement")
-            (ea, zone, site), (eb, _, _) = byn[a], byn[b]
+            (ea, zone, site, meth), (eb, _, _, _) = byn[a], byn[b]
             if eb > REFINE * ea + REFINE_FLOOR and not (ea > GROSS and eb > GROSS):
-                ck.violation(dict(site=site, clause="refinement", zone=zone, direction=direction),
+                ck.violation(dict(site=site, clause="refinement", zone=zone, direction=direction, option=meth),
                              dict(case=g, n_coarse=a, n_fine=b, err_coarse=ea, err_fine=eb),
                              f"{g}: error grows under finer sampling: n={a}: {ea:.3g} → n={b}: {eb:.3g}")
 
